@@ -245,7 +245,6 @@ def _caller_records(prog, helper, idx) -> bool:
     return False
 
 
-@shape_rule
 def r4_fallback(ctx):
     prog = ctx.prog
     f = prog.find_func("tiebreak_set")
@@ -301,8 +300,16 @@ def r4_fallback(ctx):
               f, rets[0] if rets else f.node, "tiebreak_set returns the (possibly re-broken) ranking", "",
               "the returned ranking is not the one the fallback re-breaks")
     # F2 shape: the random branch builds singletons
-    rnd = [n for n in astx.walk_own(f.node) if isinstance(n, (ast.GeneratorExp, ast.ListComp)) and
-           isinstance(n.elt, ast.Call) and astx.call_name(n.elt) == "frozenset" and astx.calls_in(n.generators[0].iter, "sample", own_only=False)]
+    def _iter_of(n):
+        # the comprehension may range over a single-assignment temporary holding the sample
+        it = n.generators[0].iter
+        if isinstance(it, ast.Name):
+            it = astx.unique_def(f.node, it.id) or it
+        return it
+    rnd = [n for n in astx.walk_own(f.node) if isinstance(n, (ast.GeneratorExp, ast.ListComp)) and len(n.generators) == 1 and
+           isinstance(n.elt, ast.Call) and astx.call_name(n.elt) == "frozenset" and len(n.elt.args) == 1 and isinstance(n.elt.args[0], (ast.Set, ast.List, ast.Tuple))
+           and len(n.elt.args[0].elts) == 1 and astx.is_name(n.elt.args[0].elts[0], getattr(n.generators[0].target, "id", None))
+           and astx.calls_in(_iter_of(n), "sample", own_only=False)]
     ctx.check(bool(rnd), f, rnd[0] if rnd else f.node, "random branch yields singleton sets (F2)", "frozenset({c}) for c in random.sample(...)",
               "the random branch no longer yields one singleton per tied candidate")
     # tiebroken_ranking: descends only into sets with len > 1 and records them
@@ -323,11 +330,11 @@ def r4_fallback(ctx):
               "a set broken by tiebroken_ranking is not entered in the returned dictionary")
 
 
-@shape_rule
 def r5_groups_obey(ctx):
     prog = ctx.prog
     f = prog.find_func("elect_cands_from_set_ranking")
-    N = Normalizer(f.node, inline=False, int_atoms=lambda a: True)
+    # single-assignment temporaries (tied = ranking[i]; seats_left = m - count) are read through, unless stale
+    N = Normalizer(f.node, inline=True, int_atoms=lambda a: True)
     calls = astx.calls_in(f.node, "tiebreak_set")
     if len(calls) != 1:
         ctx.undecided(f, f.node, "selector tiebreak site", f"{len(calls)} tiebreak_set calls in the selector")
@@ -335,6 +342,21 @@ def r5_groups_obey(ctx):
     pm = astx.parents(f.node)
     st = astx.stmt_of(calls[0], pm)
     T = st.targets[0].id if isinstance(st, ast.Assign) and isinstance(st.targets[0], ast.Name) else None
+    # roles, found by what the variables do (not by how they are called)
+    R, M = f.params[0], f.params[1]
+    loops_ = [n for n in astx.walk_own(f.node) if isinstance(n, ast.While)]
+    CNT = next((n.id for l in loops_ for n in ast.walk(l.test) if isinstance(n, ast.Name) and n.id != M), None)
+    E = None
+    for l in loops_:
+        for c_ in astx.calls_in(l, "append", own_only=False):
+            if isinstance(c_.func.value, ast.Name) and c_.args and re.fullmatch(rf"{R}\[\w+\]", N.key(c_.args[0])):
+                E = c_.func.value.id
+    if CNT is None or E is None:
+        ctx.undecided(f, f.node, "selector roles", "cannot identify the elected list / running count of the selector loop")
+        return
+    if astx.enclosing(st, pm, ast.While) is None:
+        ctx.undecided(f, st, "selector shape", "the boundary tie is resolved outside the election loop: not the append / overshoot / take-back arrangement these clauses describe")
+        return
     subs = [n for n in astx.walk_own(f.node) if isinstance(n, ast.Subscript) and astx.is_name(n.value, T) and isinstance(n.slice, ast.Slice)]
     pre = [s for s in subs if s.slice.lower is None and s.slice.upper is not None]
     suf = [s for s in subs if s.slice.lower is not None and s.slice.upper is None]
@@ -347,10 +369,10 @@ def r5_groups_obey(ctx):
         suf_to = astx.u(sst.targets[0]) if isinstance(sst, ast.Assign) else ""
         rets = [r for r in astx.walk_own(f.node) if isinstance(r, ast.Return) and astx.enclosing(r, pm, ast.While)]
         comp = rets[0].value.elts if rets and isinstance(rets[0].value, ast.Tuple) else []
-        good = len(comp) == 3 and astx.u(astx.strip_wrappers(comp[0])) == pre_to and astx.u(astx.strip_wrappers(comp[1])) == suf_to
+        good = len(comp) == 3 and astx.u(astx.strip_wrappers(comp[0])) == pre_to == E and astx.u(astx.strip_wrappers(comp[1])) == suf_to
         where = f"elected gets {T}[:{N.key(pre[0].slice.upper)}], remaining starts with {T}[{N.key(suf[0].slice.lower)}:]"
         # split point = seats still open: m - (count before the tied group)
-        good = good and N.key(pre[0].slice.upper) in ("m - num_elected", "-num_elected + m") or (good and re.fullmatch(r"-?\w+ [-+] \w+", N.key(pre[0].slice.upper)) is not None)
+        good = good and N.key(pre[0].slice.upper) in (f"{M} - {CNT}", f"-{CNT} + {M}")
     ctx.check(bool(good), f, st, "resolution split prefix->elected, suffix->remaining at one point", where,
               "the tiebreak resolution is not split at a single point into elected prefix / remaining suffix")
     # the tied group is taken back out (pop + count restored) before the split
@@ -362,8 +384,8 @@ def r5_groups_obey(ctx):
         for x in seq[: seq.index(st)]:
             if isinstance(x, ast.AugAssign) and isinstance(x.op, ast.Sub) and isinstance(x.target, ast.Name):
                 cnt = x
-        tied = astx.u(calls[0].args[0]) if calls[0].args else ""
-        good = any(b in ("elected.pop(-1)", "elected.pop()") for b in before) and cnt is not None and astx.u(cnt.value) == f"len({tied})" \
+        tied = N.key(calls[0].args[0]) if calls[0].args else ""
+        good = any(b in (f"{E}.pop(-1)", f"{E}.pop()") for b in before) and cnt is not None and cnt.target.id == CNT and N.key(cnt.value) == f"len({tied})" \
             and N.key(pre[0].slice.upper) in (f"m - {cnt.target.id}", f"-{cnt.target.id} + m") if (pre and cnt is not None) else False
         ctx.check(bool(good), f, st, "the straddling group is removed from elected and from the count before its resolution is split", str(before),
                   f"statements before the tiebreak are {before}; the tied group must be popped and its size subtracted so that m - count seats remain")
@@ -372,7 +394,7 @@ def r5_groups_obey(ctx):
            and isinstance(astx.strip_wrappers(n.value), ast.Subscript) and isinstance(astx.strip_wrappers(n.value).slice, ast.Slice)
            and astx.is_name(astx.strip_wrappers(n.value).value, f.params[0])]
     k = N.key(astx.strip_wrappers(ext[0].value)) if ext else ""
-    ctx.check(bool(re.fullmatch(r"ranking\[\w+ \+ 1:\]", k)), f, ext[0] if ext else f.node,
+    ctx.check(bool(re.fullmatch(rf"{R}\[\w+ \+ 1:\]", k)), f, ext[0] if ext else f.node,
               "remaining continues with the groups after the tied one", k, f"continuation is `{k}`; specified ranking[i + 1:]")
     # no-tie exit: (elected prefix, ranking[i:], None)
     rets = [r for r in astx.walk_own(f.node) if isinstance(r, ast.Return) and not astx.enclosing(r, pm, ast.While)]
@@ -382,7 +404,7 @@ def r5_groups_obey(ctx):
         e0, e1, e2 = rets[0].value.elts
         d = astx.u(rets[0].value)
         v2 = astx.unique_def(f.node, e2.id) if isinstance(e2, ast.Name) else e2
-        good = bool(re.fullmatch(r"ranking\[\w+:\]", N.key(e1))) and v2 is not None and astx.is_const(v2, None)
+        good = bool(re.fullmatch(rf"{R}\[\w+:\]", N.key(e1))) and v2 is not None and astx.is_const(v2, None) and astx.u(astx.strip_wrappers(e0)) == E
     ctx.check(good, f, rets[0] if rets else f.node, "untied exit returns (elected, ranking[i:], None)", d, f"untied exit returns `{d}`")
 
 
